@@ -100,7 +100,7 @@ func bufScenarioD(capacity, bufMax int, producers [][]string, consumers [][]stri
 			}
 			wg.Wait()
 			vsched.Event("joined")
-			if drain == "take" && capacity >= 1 {
+			if drain == "take" {
 				// repeated blocking Take calls, one per outstanding item: each must return
 				for q.Count() > 0 {
 					v, err := q.Take()
@@ -212,7 +212,7 @@ func bufScenarioD(capacity, bufMax int, producers [][]string, consumers [][]stri
 				}
 			}
 			// single producer + single stream of receives: global FIFO is covered by the per-consumer check
-			if capacity >= 1 {
+			if capacity >= 1 || drain == "take" {
 				var lost []int
 				for v := range accepted {
 					if got[v] == 0 {
@@ -368,7 +368,9 @@ func scenarios(tier string) []*vsched.Scenario {
 		out = append(out, bufScenario(1, 1, P2, [][]string{{"poll"}, {"take"}}, 2, true), bufScenario(1, 0, P1p, cons[0], 1, false))
 		// concurrent producers at the capacity boundary, no consumer; blocking-Take drain
 		out = append(out, bufScenario(1, 1, P2, nil, 2, false), bufScenario(0, 1, P2, nil, 1, false),
-			bufScenarioD(1, 1, P1, [][]string{{"poll"}}, "take", 1, false), bufScenarioD(1, 2, P1, [][]string{{"taket"}}, "take", 1, false), bufScenarioD(2, 1, P1, nil, "take", 1, false))
+			bufScenarioD(1, 1, P1, [][]string{{"poll"}}, "take", 1, false), bufScenarioD(1, 2, P1, [][]string{{"taket"}}, "take", 1, false), bufScenarioD(2, 1, P1, nil, "take", 1, false),
+			// unbuffered channel: the loader can only hand over to a consumer that is already waiting - a blocked Take is one
+			bufScenarioD(0, 2, P1, nil, "take", 1, false), bufScenarioD(0, 1, P1p, [][]string{{"poll"}}, "take", 1, false))
 		return out
 	}
 	for c := 0; c <= 2; c++ {
@@ -383,7 +385,7 @@ func scenarios(tier string) []*vsched.Scenario {
 	for c := 0; c <= 2; c++ {
 		for b := 0; b <= 2; b++ {
 			out = append(out, bufScenario(c, b, P2, nil, 2, false))
-			if c >= 1 {
+			if c >= 1 || b >= 1 {
 				out = append(out, bufScenarioD(c, b, P1, [][]string{{"poll"}}, "take", 1, false), bufScenarioD(c, b, P1, nil, "take", 2, false))
 			}
 		}
